@@ -4,7 +4,7 @@ TIER="$1"; shift
 HERE="$(cd "$(dirname "$0")/.." && pwd)"
 for S in "$@"; do
   for i in 01 02 03 04 05 06 07 08 09 10 11 12 13 14 15 16 17 18 19 20; do
-    OUT="$("$HERE/check" C$i --tier "$TIER" --seed "$S" 2>&1 | grep -v '^KNOWN-FINDING' )"
+    OUT="$(VERIF_OUT="${SWEEP_OUT:-$HERE/.sweep_out}" "$HERE/check" C$i --tier "$TIER" --seed "$S" 2>&1 | grep -v '^KNOWN-FINDING' )"
     LAST="$(echo "$OUT" | tail -1)"
     case "$LAST" in
       *" held:"*) echo "seed=$S $LAST" ;;
